@@ -365,7 +365,7 @@ def op_of(o):
 
 def run_harness(reqs, timeout=1500):
     inp = ("\n".join(json.dumps(r) for r in reqs) + "\n").encode()
-    rc, out, err = vlib.sh([os.path.join(vlib.BIN, "vh_c08")], inp=inp, timeout=timeout)
+    rc, out, err = vlib.sh([os.path.join(vlib.BIN, "vh_c08")], inp=inp, timeout=timeout, env=vlib.GOENV)
     lines = [l for l in out.split("\n") if l.strip()]
     if rc != 0 or len(lines) != len(reqs):
         raise RuntimeError("vh_c08 failed (rc %s, %d/%d answers): %s" % (rc, len(lines), len(reqs), err[-1500:]))
@@ -400,6 +400,43 @@ def observe(ctx, cases):
         o["status"] = st
         o["value"], o["why"] = (v, "") if st == 0 else ("", v)
     shutil.rmtree(gendir, ignore_errors=True)
+
+
+def run_lab(ctx, cases, batch=40):
+    """Compile the generated Go code of the given cases and record the topics it really uses.
+    Fills case['lab'] = {(op, side): (topic or None, error)}; returns list of (case, why) build problems."""
+    problems = []
+    labdir = os.path.join(vlib.VERIF, "harness", "lab", "gen", "c08-%d" % os.getpid())
+
+    def go(group):
+        progs = [{"id": str(c["n"]), "idl": idl_of(c).encode().hex(), "delim": c["delim"].encode().hex(),
+                  "ops": c["ops"], "vals": [v.encode().hex() for v in c["vals"]]} for c in group]
+        return run_harness([{"op": "golab", "id": "lab", "dir": labdir, "progs": progs}])[0]
+
+    def take(group, r):
+        byid = {str(c["n"]): c for c in group}
+        for cid, e in (r.get("errors") or {}).items():
+            problems.append((byid[cid], "Go generation failed: " + e))
+        for l in r.get("lab") or []:
+            byid[l["id"]].setdefault("lab", {})[(l["op"], l["side"])] = (unhex(l["topic"]) if not l.get("err") else None, l.get("err", ""))
+
+    try:
+        for i in range(0, len(cases), batch):
+            group = cases[i:i + batch]
+            r = go(group)
+            if r.get("fail"):
+                # find the program(s) whose generated code does not build
+                for c in group:
+                    r1 = go([c])
+                    if r1.get("fail"):
+                        problems.append((c, r1["fail"][-1500:]))
+                    else:
+                        take([c], r1)
+            else:
+                take(group, r)
+    finally:
+        shutil.rmtree(labdir, ignore_errors=True)
+    return problems
 
 
 def rejected(case):
@@ -471,6 +508,10 @@ def run(ctx, br):
         cases = [gen_case(ctx.rng, i) for i in range(n)]
     observe(ctx, cases)
 
+    lab_cases = [c for c in cases if not c["errors"] and all(clean(c, o) for o in c["ops"])]
+    lab_cases = lab_cases[:(14 if quick else 240)]
+    lab_problems = run_lab(ctx, lab_cases)
+
     items = []          # (case, op)
     for c in cases:
         if rejected(c):
@@ -494,6 +535,28 @@ def run(ctx, br):
             oracle_fail += 1
             ctx.violation("C08 oracle: " + why, replay_of(c, op))
 
+    lab_topics = 0
+    for c, why in lab_problems:
+        oracle_fail += 1
+        ctx.violation("C08 oracle: generated Go code of a well-formed scope does not build / generate: " + why[-300:],
+                      replay_of(c, c["ops"][0], {"lab_error": why}))
+    for c in lab_cases:
+        for (op, sd), (topic, err) in sorted(c.get("lab", {}).items()):
+            lab_topics += 1
+            want = spec_topic(c, op)
+            ext = [o for o in c["obs"] if o["gen"] == "go" and o["side"] == sd and op_of(o) == op]
+            if err or topic != want:
+                oracle_fail += 1
+                ctx.violation("C08 oracle: compiled Go %s of %s hands topic %r to the transport, expected %r" % (
+                    "publisher" if sd == "pub" else "subscriber", op, topic if not err else err, want),
+                    replay_of(c, op, {"compiled_go_topic": topic, "compiled_go_error": err}))
+            elif not ext or ext[0]["status"] != 0 or ext[0]["value"] != topic:
+                oracle_fail += 1
+                r = replay_of(c, op, {"compiled_go_topic": topic})
+                r["no_failing_input_found"] = True
+                r["broken"] = "test equipment: the Go topic evaluated from the extracted statements differs from what the compiled code uses"
+                ctx.violation("C08 correspondence: extraction/evaluation of the Go statements disagrees with the compiled Go code", r)
+
     verdicts = vlib.run_judge(ctx.rundir, "JTopic", "judge", [judge_tokens(c, op) for c, op in items])
     mism = [i for i, v in enumerate(verdicts) if v < 0]
     for i in mism:
@@ -513,8 +576,8 @@ def run(ctx, br):
         if v < 0 or v >= 256:
             continue
         names = re.findall(r"\{(\w*)\}", c["prefix"], flags=re.A)
-        if any(nm in RESERVED or nm.endswith("_handler") or nm in JAVA_GO_DART_KEYWORDS or keyword.iskeyword(nm) for nm in names) \
-                or len(set(names)) != len(names):
+        # the model knows nothing of reserved words and of Dart's on<Type> parameter
+        if any(nm in JAVA_GO_DART_KEYWORDS or keyword.iskeyword(nm) or nm == "onEvent" for nm in names):
             continue
         want = spec_topic(c, op)
         for o in c["obs"]:
@@ -551,6 +614,8 @@ def run(ctx, br):
                 "scope name; distinct by (scope, op, prefix, delim, values)",
         "traces_validated_against_impl": len([v for v in verdicts if v >= 0]),
         "judge_cases": len(items),
+        "go_programs_compiled_and_run": len(lab_cases),
+        "go_topics_captured_at_transport": lab_topics,
         "judge_mismatches": len(mism),
         "oracle_failures": oracle_fail,
         "observations_inside_theorem_side_conditions": covered,
